@@ -131,6 +131,20 @@ theorem hangup_only_after_teardown (cfg : Cfg) (s : St) (h : Reachable cfg s) :
   invariant_of_step (Inv := fun s => s.dropped ≠ [] → s.tornDown = true) (by simp [init])
     (dropped_step cfg) s h
 
+/-- The sequence case of stream `batcher_blocking_c07` (`Model.flushSequence`: two blocking flushes on one thread,
+    the first timing out; the earlier call's callback — watcher 1 — runs during the later call): when watcher 1
+    has run, item 3 (accepted before flush #2 was requested) is not finalised yet and watcher 2 has not run; when
+    watcher 2 has run, everything is. Each call reads only its own trigger. -/
+def seqLabels : List Label :=
+  [.send 1, .rxTake, .rxBegin, .send 2, .whenFlushed 1, .rxOutcome .ok, .rxTake, .rxBegin, .send 3, .whenFlushed 2,
+   .rxOutcome .ok, .rxFireFlush, .rxTake, .rxBegin]
+
+example : ∃ s, Reachable (Cfg.real 8) s ∧ s.fired = [1] ∧ s.finalised = [1, 2] ∧ s.rx.ws = [2] :=
+  ⟨_, ⟨seqLabels, rfl⟩, by decide⟩
+
+example : ∃ s, Reachable (Cfg.real 8) s ∧ s.fired = [1, 2] ∧ s.finalised = [1, 2, 3] :=
+  ⟨_, ⟨seqLabels ++ [.rxOutcome .ok, .rxFireFlush], rfl⟩, by decide⟩
+
 /-! ### Non-vacuity -/
 
 /-- Flush requested while batch `[1]` is in flight and `2` is queued; the batch is retried, succeeds; the next
